@@ -145,12 +145,34 @@ class BuildError(Exception):
 
 
 def _prune_old(base, key):
+    """Drop builds of other trees, but never one that was used recently: several checks
+    (and scratch-tree validation runs) may be running side by side."""
     bdir = os.path.join(base, "build")
     if not os.path.isdir(bdir):
         return
+    now = time.time()
+    cands = []
     for d in os.listdir(bdir):
-        if d != key and not d.endswith(".lock"):
-            shutil.rmtree(os.path.join(bdir, d), ignore_errors=True)
+        p = os.path.join(bdir, d)
+        if d == key or not os.path.isdir(p):
+            continue
+        newest = 0
+        for v in os.listdir(p):
+            st = os.path.join(p, v, ".verif-built")
+            try:
+                newest = max(newest, os.path.getmtime(st))
+            except OSError:
+                try:
+                    newest = max(newest, os.path.getmtime(os.path.join(p, v)))
+                except OSError:
+                    pass
+        cands.append((newest, p))
+    cands.sort()
+    keep = 6
+    for i, (t, p) in enumerate(cands):
+        age = now - t
+        if age > 3 * 3600 or (len(cands) - i > keep and age > 1800):
+            shutil.rmtree(p, ignore_errors=True)
 
 
 def get_build(variant="plain", quiet=False):
@@ -165,8 +187,12 @@ def get_build(variant="plain", quiet=False):
     fcntl.flock(lockf, fcntl.LOCK_EX)
     try:
         if os.path.exists(stamp):
+            try:
+                os.utime(stamp)
+            except OSError:
+                pass
             return Build(root, variant)
-        # single-key policy: drop builds of other trees (take a global lock for that)
+        # bounded cache: drop builds of other trees (take a global lock for that)
         glock = open(os.path.join(base, "build", "global.lock"), "w")
         fcntl.flock(glock, fcntl.LOCK_EX)
         try:
